@@ -66,6 +66,7 @@ def extras(ctx):
 
 
 def run(ctx):
+    sm.check_state_machine(ctx)      # SessionStates.tla: the whole state machine; every recorded call is labelled against it
     hists, execs, traces = sm.run_property(ctx, "C19", ["no_logout_when_established"], extras(ctx))
     ctx.rule = ("transition cover of the session design (%d histories) + seeded inbound sequences incl. CompIDs containing '34=', "
                 "replayed on the real session; distinct = distinct call sequences" % len(hists))
